@@ -285,7 +285,41 @@ theorem C20_retry_delay_fix_agrees (s n : Int) :
       have : (normalize s n).1 < 0 ∨ (normalize s n).2 < 0 := by omega
       simp only [this, if_true]
 
-/- Non-vacuity: the wire model satisfies the shape of the hypotheses on a concrete value. -/
+/-- Decode side, arbitrary bytes, over the wire model: whenever `check_error_details_vec`
+succeeds on what arrived (from any peer, well-formed or not), `check_error_details` succeeds too
+and holds the last detail of each kind, and every `get_details_<kind>` returns the first detail
+of its kind of that same list.  (When the list check fails the getters may still find a detail:
+they skip undecodable entries; that is modelled and tied, not claimed here.) -/
+theorem C20_decode_consistent (b : Bytes) (ds : List ErrorDetail) (h : checkVec prost b = some ds) :
+    checkSet prost b = some (ds.foldl ErrorDetails.put {}) ∧
+    ∀ k, getFirst prost k b = Spec.RichError.firstOfKind k ds := by
+  unfold checkVec at h
+  unfold checkSet getFirst
+  cases hs : prost.decStatus b with
+  | none => simp [hs] at h
+  | some st =>
+    simp only [hs] at h ⊢
+    exact ⟨checkSet_of_checkVec prost prost_kind_law _ _ _ h,
+      fun k => firstOfKind_of_checkVec prost prost_kind_law k _ _ h⟩
+
+/- Non-vacuity.  The hypotheses of the composed theorems are met by a non-trivial value: a header
+encoding with the round-trip law exists (the identity), and a status with a two-byte UTF-8
+message, a localized message with a multi-byte string, a retry delay, a quota failure with two
+violations and an error info with two metadata entries is inside the domain. -/
+example : ∃ st, (some : Status Unit → Option (Status Unit)) (id (withVec prost 3 [0xc3, 0xa9]
+      [.localizedMessage ⟨[0x65, 0x6e], [0xe2, 0x82, 0xac]⟩, .retryInfo ⟨some ⟨5, 7⟩⟩,
+       .quotaFailure ⟨[⟨[0x61], []⟩, ⟨[], [0x62]⟩]⟩, .errorInfo ⟨[0x52], [], [([0x6b], [0x31]), ([], [0x32])]⟩] ())) = some st ∧
+    st.code = 3 ∧ st.message = [0xc3, 0xa9] ∧
+    checkVec prost st.details = some
+      [.localizedMessage ⟨[0x65, 0x6e], [0xe2, 0x82, 0xac]⟩, .retryInfo ⟨some ⟨5, 7⟩⟩,
+       .quotaFailure ⟨[⟨[0x61], []⟩, ⟨[], [0x62]⟩]⟩, .errorInfo ⟨[0x52], [], [([0x6b], [0x31]), ([], [0x32])]⟩] ∧
+    getVec prost st.details =
+      [.localizedMessage ⟨[0x65, 0x6e], [0xe2, 0x82, 0xac]⟩, .retryInfo ⟨some ⟨5, 7⟩⟩,
+       .quotaFailure ⟨[⟨[0x61], []⟩, ⟨[], [0x62]⟩]⟩, .errorInfo ⟨[0x52], [], [([0x6b], [0x31]), ([], [0x32])]⟩] :=
+  C20_wire_vec_roundtrip id some (fun _ => rfl) 3 [0xc3, 0xa9] _ () (by decide) (by decide)
+    (by decide) (by decide +kernel)
+
+/- The same value directly: -/
 example : checkVec prost (withVec prost 3 [0x6d] [.localizedMessage ⟨[0x65, 0x6e], [0xc3, 0xa9]⟩,
     .retryInfo ⟨some ⟨5, 7⟩⟩] ()).details
     = some [.localizedMessage ⟨[0x65, 0x6e], [0xc3, 0xa9]⟩, .retryInfo ⟨some ⟨5, 7⟩⟩] := by decide +kernel
